@@ -7,7 +7,7 @@
 
     Keys and values are [N] (the harness maps fixed-size key bytes and value bytes
     injectively and order-preservingly to numbers). *)
-From Verif Require Import Base.Prelude Base.SchedS Gen.Tables.
+From Verif Require Import Base.Prelude Base.SchedS Gen.Tables Model.C21Codec.
 From Coq Require Import Arith.
 
 Definition ents := list (N * N).       (* BTreeMap<Vec<u8>, Vec<u8>>: sorted by key, keys unique *)
@@ -306,7 +306,8 @@ Record case := mk_case {
   c_final_pcs_n : list N;
   c_final_order_n : list N;           (* everybody killed: read_dir order of the directory *)
   c_final_heads_n : list N;           (* directory after a fresh instance's get_head() *)
-  c_final_n : N * list N              (* table it returned and its lookups (0 = absent) *)
+  c_final_n : N * list N;             (* table it returned and its lookups (0 = absent) *)
+  c_files : list (N * bytes)          (* some segment files as the real code wrote them: (table, raw bytes) *)
 }.
 
 Definition nats (l : list N) : list nat := map N.to_nat l.
@@ -321,6 +322,29 @@ Definition c_final (c : case) : nat * list (option N) :=
   (N.to_nat (fst (c_final_n c)), map opt_of (snd (c_final_n c))).
 
 Definition tab (c : case) (i : nat) : table := nth i (c_tabs c) [].
+
+(** Values travel as codes (only equality matters): 1 + position in the harness's pool. *)
+Definition value_pool : list bytes :=
+  [[]; [7]; [8]; [7; 7]; [0]; [1]; [2]; [3]; [4]; [5]; [6]]%N.
+Fixpoint pos_in (v : bytes) (l : list bytes) (i : N) : N :=
+  match l with
+  | [] => 0
+  | x :: r => if bytes_eqb x v then i else pos_in v r (i + 1)
+  end%N.
+Definition value_code (v : bytes) : N := pos_in v value_pool 1.
+
+(** The byte codec of Model/C21Codec.v applied to a real segment file (key size 1): it must
+    parse, its entries must be the local entries of the table's newest segment, it must name
+    a parent iff the table has older segments, and serialising what was parsed must give
+    back the very bytes. *)
+Definition file_ok (c : case) (f : N * bytes) : bool :=
+  match load 1 (snd f), tab c (N.to_nat (fst f)) with
+  | Some (pname, es), seg :: rest =>
+    ents_eqb seg (map (fun kv => (hd 0%N (fst kv), value_code (snd kv))) es)
+    && Bool.eqb (match pname with [] => true | _ => false end) (match rest with [] => true | _ => false end)
+    && bytes_eqb (serialize pname es) (snd f)
+  | _, _ => false
+  end.
 
 Definition set_eqb (a b : list table) : bool := subset_t a b && subset_t b a.
 
@@ -382,6 +406,7 @@ Definition corr (c : case) : bool :=
   let '(s1, ok) := replay c s0 (c_steps c) in
   let s2 := final_load (c_lw c) s1 (map (tab c) (c_final_order c)) in
   ok
+  && forallb (file_ok c) (c_files c)
   && list_eqb Nat.eqb (map pc_code (s_procs s1)) (c_final_pcs c)
   && set_eqb (s_heads s2) (map (tab c) (c_final_heads c))
   && match nth_error (s_procs s2) (length (s_procs s1)) with
